@@ -180,7 +180,10 @@ DISPENSO_REQUIRES(ForEachFunc<F, Iter>)
 void for_each_n(TaskSetT& tasks, Iter start, size_t n, F&& f, ForEachOptions options = {}) {
   // TODO(bbudge): With options.maxThreads, we might want to allow a small fanout factor in
   // recursive case?
-  if (!n || !options.maxThreads || detail::PerPoolPerThreadInfo::isParForRecursive(&tasks.pool())) {
+  // A pool without threads cannot take any chunk: with wait == false the thread count below would
+  // be zero (division by zero in staticChunkSize), so run serially like the maxThreads == 0 case.
+  if (!n || !options.maxThreads || !tasks.numPoolThreads() ||
+      detail::PerPoolPerThreadInfo::isParForRecursive(&tasks.pool())) {
     for (size_t i = 0; i < n; ++i) {
       f(*start);
       ++start;
